@@ -398,6 +398,11 @@ def judge_ref(case, rec: Recorder | None = None) -> list[Disc]:
         # the node tree is not the image of the input (C02's subject): no path verdict is possible, which must not pass silently
         if rec is not None:
             rec.cls('ref:skip-structure-differs(C02)', len(case['paths']))
+            # generator-health classes describe the generated case, whatever the implementation did with it
+            if cfg['backend'] == 'et' and cfg.get('nsxml'):
+                rec.cls('ref:et-xml-in-namespaces', len(case['paths']))
+            if cfg['backend'] == 'lxml':
+                rec.cls(f'ref:lxml-{cfg["rootkind"]}-root/{_misc_class(spec)}', len(case['paths']))
         return [Disc(f'C01/tree-structure-differs/{im.why}/{im.where}', 'node tree = reference tree of the input', im.why,
                      f'cfg={cfg} xml={gx.to_xml(spec)}')]
     be = cfg['backend']
@@ -624,6 +629,7 @@ def judge_lxml(case, rec: Recorder | None = None) -> list[Disc]:
     if not im.ok:
         if rec is not None:
             rec.cls('lxml:skip-structure-differs(C02)', len(case['paths']))
+            rec.cls(f'lxml:{cfg.get("rootkind", "doc")}-root/{_misc_class(spec)}', len(case['paths']))
         return [Disc(f'C01/tree-structure-differs/{im.why}/{im.where}', 'node tree = reference tree of the input', im.why,
                      f'cfg={cfg} xml={gx.to_xml(spec)}')]
     b, ref = im.b, im.ref
